@@ -39,7 +39,7 @@ def run(tier):
         if n < 400 or n2 < 4 * 12:
             raise AnalysisBroken('C13: %d driver leaves, %d gsrfs leaves' % (n, n2))
         from ..rules import kernels as _k
-        _k.leading_dimension_agreement(chk, 'C13.ld', prog, [q + 'gsrfs' for q in 'sdcz'], cfgname, floor=8)
+        _k.leading_dimension_agreement(chk, 'C13.ld', prog, [q + 'gsrfs' for q in 'sdcz'], cfgname, floor=4)
         from ..rules import cond as _cond
         chk.clause('C13.est', 'the norm estimate behind FERR is a magnitude by construction')
         for _p in 'sdcz':
